@@ -48,50 +48,73 @@ func (o *Oracle) litValue(lit string, like engine.Value) (engine.Value, error) {
 
 // EnumPos is an enum position found in the source.
 type EnumPos struct {
-	Path    string
-	Policy  string
-	Unknown *engine.Term
+	Path  string
+	Error *engine.Term // source value must produce an error
+	Panic *engine.Term // source value must panic
 }
 
-func (o *Oracle) enumUnknown(es *EnumSpec, src engine.Value) (*engine.Term, error) {
-	unk := engine.True
+func isAction(s string) bool { return strings.HasPrefix(s, "@") }
+
+// enumConds computes, for a source value, the conditions "not a declared member",
+// "must error", "must panic".
+func (o *Oracle) enumConds(es *EnumSpec, src engine.Value) (unk, mustErr, mustPanic *engine.Term, err error) {
+	unk = engine.True
+	mustErr, mustPanic = engine.False, engine.False
 	for _, a := range es.Map {
-		lv, err := o.litValue(a.Src, src)
-		if err != nil {
-			return nil, err
+		lv, e := o.litValue(a.Src, src)
+		if e != nil {
+			return nil, nil, nil, e
 		}
-		unk = engine.And(unk, engine.Not(o.R.ValEq(src, lv)))
+		is := o.R.ValEq(src, lv)
+		unk = engine.And(unk, engine.Not(is))
+		switch a.Tgt {
+		case "@error":
+			mustErr = engine.Or(mustErr, is)
+		case "@panic":
+			mustPanic = engine.Or(mustPanic, is)
+		}
 	}
-	return o.R.Name(unk), nil
+	unk = o.R.Name(unk)
+	switch es.Unknown {
+	case "@error":
+		mustErr = engine.Or(mustErr, unk)
+	case "@panic":
+		mustPanic = engine.Or(mustPanic, unk)
+	}
+	return unk, o.R.Name(mustErr), o.R.Name(mustPanic), nil
 }
 
 func (o *Oracle) enumLeaves(es *EnumSpec, src engine.Value, S types.Type, got engine.Value, T types.Type, path string) {
+	unk, mustErr, mustPanic, err := o.enumConds(es, src)
+	if err != nil {
+		o.fail(path, "oracle: %v", err)
+		return
+	}
 	for _, a := range es.Map {
-		sv, err := o.litValue(a.Src, src)
-		if err != nil {
-			o.fail(path, "oracle: %v", err)
-			return
+		sv, _ := o.litValue(a.Src, src)
+		is := o.R.ValEq(src, sv)
+		switch a.Tgt {
+		case "@error", "@panic":
+			continue
+		case "@ignore":
+			o.leaf(path, engine.Implies(is, o.IsZero(got, T)), fmt.Sprintf("member %s is mapped to @ignore and must leave the zero value", a.Src))
+			continue
 		}
 		tv, err := o.litValue(a.Tgt, got)
 		if err != nil {
 			o.fail(path, "oracle: %v", err)
 			return
 		}
-		o.leaf(path, engine.Implies(o.R.ValEq(src, sv), o.R.ValEq(got, tv)),
+		o.leaf(path, engine.Implies(is, o.R.ValEq(got, tv)),
 			fmt.Sprintf("member %s must convert to %s", a.Src, a.Tgt))
 	}
-	unk, err := o.enumUnknown(es, src)
-	if err != nil {
-		o.fail(path, "oracle: %v", err)
-		return
-	}
+	// a value that must error / panic cannot be on a normally returning path
+	o.leaf(path, engine.Not(mustErr), "value that must produce an error passed silently")
+	o.leaf(path, engine.Not(mustPanic), "value that must panic passed silently")
 	switch {
 	case es.Unknown == "@ignore":
 		o.leaf(path, engine.Implies(unk, o.IsZero(got, T)), "enum:unknown @ignore must yield the zero value")
-	case es.Unknown == "@error" || es.Unknown == "@panic":
-		o.leaf(path, engine.Not(unk), "non-member value passed without "+es.Unknown)
-	case es.Unknown == "":
-		// no policy known: nothing demanded for non-members
+	case isAction(es.Unknown) || es.Unknown == "":
 	default:
 		tv, err := o.litValue(es.UnknownVal, got)
 		if err != nil {
@@ -109,9 +132,9 @@ func (o *Oracle) EnumPositions(src engine.Value, S, T types.Type, path string, o
 	}
 	S, T = types.Unalias(S), types.Unalias(T)
 	if es, ok := o.Spec.Enums[pairKey(S, T)]; ok {
-		unk, err := o.enumUnknown(es, src)
+		_, me, mp, err := o.enumConds(es, src)
 		if err == nil {
-			*out = append(*out, EnumPos{Path: path, Policy: es.Unknown, Unknown: unk})
+			*out = append(*out, EnumPos{Path: path, Error: me, Panic: mp})
 		}
 		return
 	}
@@ -189,4 +212,3 @@ func (o *Oracle) EnumPositions(src engine.Value, S, T types.Type, path string, o
 	}
 }
 
-func policyName(p string) string { return strings.TrimPrefix(p, "@") }
